@@ -15,18 +15,21 @@
 #include <string.h>
 #include "confuse.h"
 #include "verif.h"
+#ifndef CAP
+#define CAP 8 /* capacity of the string-copy models and of the reference's title buffer */
+#endif
 #ifdef __CPROVER__
 static char *v_strndup8(const char *s, size_t n)
 {
-	char *r = malloc(8);
+	char *r = malloc(CAP);
 	size_t i;
 
-	for (i = 0; i < n && i < 7 && s[i]; i++)
+	for (i = 0; i < n && i < CAP - 1 && s[i]; i++)
 		r[i] = s[i];
 	r[i] = 0;
 	return r;
 }
-static char *v_strdup8(const char *s) { return v_strndup8(s, 7); }
+static char *v_strdup8(const char *s) { return v_strndup8(s, CAP - 1); }
 #ifndef EXACT_ALLOC
 #define strndup v_strndup8
 #define strdup v_strdup8
@@ -109,7 +112,7 @@ static void ref_walk(int want_section, struct ref_res *r)
 		return;
 	while (1) {
 		int ns = i, nl, has_q = 0, qs = 0, ql = 0, quoted = 0, bad = 0, last;
-		char title[8];
+		char title[CAP];
 		int tl = 0;
 		cfg_opt_t *o;
 		long idx = 0;
@@ -147,12 +150,12 @@ static void ref_walk(int want_section, struct ref_res *r)
 					return;
 			} else {
 				qs = i;
-				while (sh[i] == 'Q')
+				while (sh[i] == 'Q' || sh[i] == 'D')
 					i++;
 				ql = i - qs;
 				if (ql == 0)
 					return; /* empty qualifier */
-				for (tl = 0; tl < ql && tl < 7; tl++)
+				for (tl = 0; tl < ql && tl < CAP - 1; tl++)
 					title[tl] = vin_path[qs + tl];
 			}
 			title[tl] = 0;
@@ -275,6 +278,9 @@ int main(void)
 		if (sh[i] == 'N') {
 			vin_path[i] = nondet_char_or_replay(i);
 			V_ASSUME(vin_path[i] != 0 && vin_path[i] != '|' && vin_path[i] != '=');
+		} else if (sh[i] == 'D') { /* a decimal digit of a long index qualifier */
+			vin_path[i] = nondet_char_or_replay(i);
+			V_ASSUME(vin_path[i] >= '0' && vin_path[i] <= '9');
 		} else if (sh[i] == 'Q') {
 			vin_path[i] = nondet_char_or_replay(i);
 			V_ASSUME(vin_path[i] != 0 && vin_path[i] != '|' && vin_path[i] != '\'' && vin_path[i] != '\\');
